@@ -49,14 +49,14 @@ theorem Sim.flip {d d' : Design} {B : Nat → Nat → Prop} (s : Sim d d' B) : S
     obtain ⟨h1, h2⟩ := s.leaf y x h
     exact ⟨h1.symm, fun hl => (h2 (h1 ▸ hl)).symm⟩
 
-theorem Sim.defAtFrom {d d' : Design} {B : Nat → Nat → Prop} (s : Sim d d' B) :
+theorem Sim.walk {d d' : Design} {B : Nat → Nat → Prop} (s : Sim d d' B) :
     ∀ (p : List Nat) (x y : Nat), B x y → ∀ z, defAtFrom d x p = some z → ∃ z', defAtFrom d' y p = some z' ∧ B z z' := by
   intro p
   induction p with
-  | nil => intro x y h z hz; simp only [Spydr.Xform.defAtFrom] at hz ⊢; cases hz; exact ⟨y, rfl, h⟩
+  | nil => intro x y h z hz; simp only [defAtFrom] at hz ⊢; cases hz; exact ⟨y, rfl, h⟩
   | cons i p ih =>
     intro x y h z hz
-    simp only [Spydr.Xform.defAtFrom] at hz ⊢
+    simp only [defAtFrom] at hz ⊢
     cases hc : childById (d.defs x) i with
     | none => simp [hc] at hz
     | some c =>
@@ -65,36 +65,36 @@ theorem Sim.defAtFrom {d d' : Design} {B : Nat → Nat → Prop} (s : Sim d d' B
       simp only [hc']
       exact ih _ _ hB z hz
 
-theorem Sim.defAtFrom_none {d d' : Design} {B : Nat → Nat → Prop} (s : Sim d d' B)
+theorem Sim.walk_none {d d' : Design} {B : Nat → Nat → Prop} (s : Sim d d' B)
     (p : List Nat) (x y : Nat) (h : B x y) (hn : defAtFrom d x p = none) : defAtFrom d' y p = none := by
-  cases h' : Spydr.Xform.defAtFrom d' y p with
+  cases h' : defAtFrom d' y p with
   | none => rfl
   | some z' =>
-    obtain ⟨z, hz, _⟩ := s.flip.defAtFrom p y x h z' h'
+    obtain ⟨z, hz, _⟩ := s.flip.walk p y x h z' h'
     rw [hn] at hz; cases hz
 
 theorem Sim.hadj {d d' : Design} {B : Nat → Nat → Prop} (s : Sim d d' B) (htop : B d.top d'.top)
     {a b : HNode} (h : HAdj d a b) : HAdj d' a b := by
   cases h with
   | outer h1 h2 h3 =>
-    obtain ⟨y, hy, hB⟩ := s.defAtFrom _ _ _ htop _ h1
+    obtain ⟨y, hy, hB⟩ := s.walk _ _ _ htop _ h1
     refine HAdj.outer (x := y) hy ?_ h3
     simpa [wireAt, ← s.cables _ _ hB] using h2
   | inner h1 h2 h3 =>
-    obtain ⟨y, hy, hB⟩ := s.defAtFrom _ _ _ htop _ h1
+    obtain ⟨y, hy, hB⟩ := s.walk _ _ _ htop _ h1
     refine HAdj.inner (x := y) hy ?_ h3
     simpa [wireAt, ← s.cables _ _ hB] using h2
   | top h2 h3 =>
     refine HAdj.top ?_ h3
     simpa [wireAt, ← s.cables _ _ htop] using h2
 
-theorem Sim.unfoldAt {d d' : Design} {B : Nat → Nat → Prop} (s : Sim d d' B) (htop : B d.top d'.top)
+theorem Sim.unfold_eq {d d' : Design} {B : Nat → Nat → Prop} (s : Sim d d' B) (htop : B d.top d'.top)
     (p : List Nat) (iid : Nat) : unfoldAt d p iid = unfoldAt d' p iid := by
-  simp only [Spydr.Xform.unfoldAt, instAt, defAt]
-  cases hx : Spydr.Xform.defAtFrom d d.top p with
-  | none => rw [s.defAtFrom_none p _ _ htop hx]
+  simp only [unfoldAt, instAt, defAt]
+  cases hx : defAtFrom d d.top p with
+  | none => rw [s.walk_none p _ _ htop hx]
   | some x =>
-    obtain ⟨y, hy, hB⟩ := s.defAtFrom p _ _ htop x hx
+    obtain ⟨y, hy, hB⟩ := s.walk p _ _ htop x hx
     rw [hy]
     simp only
     cases hc : childById (d.defs x) iid with
@@ -117,7 +117,7 @@ theorem Sim.unfoldAt {d d' : Design} {B : Nat → Nat → Prop} (s : Sim d d' B)
 
 theorem Sim.sameElab {d d' : Design} {B : Nat → Nat → Prop} (s : Sim d d' B) (htop : B d.top d'.top) :
     SameElab d d' :=
-  ⟨fun p iid => s.unfoldAt htop p iid,
+  ⟨fun p iid => s.unfold_eq htop p iid,
    fun _ _ => ⟨Conn.mono (fun _ _ => s.hadj htop), Conn.mono (fun _ _ => s.flip.hadj htop)⟩⟩
 
 theorem SameElab.refl (d : Design) : SameElab d d := ⟨fun _ _ => rfl, fun _ _ => Iff.rfl⟩
